@@ -7,10 +7,10 @@ package utils
 import (
 	configapi "github.com/onosproject/onos-api/go/onos/config/v2"
 	topoapi "github.com/onosproject/onos-api/go/onos/topo"
+	"github.com/onosproject/onos-config/pkg/utils"
 	"github.com/onosproject/onos-lib-go/pkg/env"
 	"github.com/onosproject/onos-lib-go/pkg/logging"
 	"github.com/onosproject/onos-lib-go/pkg/uri"
-	"strings"
 )
 
 var log = logging.GetLogger("controller", "utils")
@@ -30,7 +30,7 @@ func AddDeleteChildren(index configapi.Index, changeValues map[string]*configapi
 		// if this pathValue has to be deleted, then we need to search for all children of this pathValue
 		if changeValue.Deleted {
 			for _, value := range configStore {
-				if strings.HasPrefix(value.Path, changeValue.Path) && !strings.EqualFold(value.Path, changeValue.Path) {
+				if utils.IsPathBelow(value.Path, changeValue.Path) {
 					updChangeValues[value.Path] = value
 					updChangeValues[value.Path].Index = index
 					updChangeValues[value.Path].Deleted = true
